@@ -182,8 +182,15 @@ func VerifFeedOnce() {
 		rt.Assert(err != nil, "C13/context-end-stops-with-error")
 		rt.Cover(true, "feed/context-done")
 	}
-	// a fault-free attempt succeeds
+	// transient failures are retried: the attempts end with an error only because the back-off
+	// policy gave up, the context ended, or the witness turned out to be ahead (the one permanent
+	// condition)
 	last := len(w.kind) - 1
+	if err != nil && last >= 0 && rt.Count("retry.giveup") == 0 && rt.Count("retry.ctxdone") == 0 {
+		ahead := w.kind[last] == 1 && len(w.latest[last]) > 0 && rt.Valid(w.latest[last], origin, key, nil) && rt.CpSize(w.latest[last]) > subSize
+		rt.Assert(ahead, "C13/only-witness-ahead-ends-the-retries")
+	}
+	// a fault-free attempt succeeds
 	if last >= 0 && err != nil && w.kind[last] != 2 {
 		clean := true
 		for _, pc := range pcalls {
